@@ -542,6 +542,7 @@ fn enc_test(ec: &EncCase) -> Verdict {
 }
 
 pub fn run(ctx: &Ctx) {
+    ops::ALLOW_BEYOND_PRECISION.store(true, std::sync::atomic::Ordering::Relaxed);
     let t = ctx.tier;
     ctx.run_sub("normalize_shift_vs_value_model", t.pick(600_000, 6_000_000), 64, || strategy(6), test);
     ctx.run_sub("normalize_shift_large_n", t.pick(10_000, 100_000), 32, || strategy(11), test);
@@ -550,6 +551,7 @@ pub fn run(ctx: &Ctx) {
 }
 
 pub fn replay(ctx: &Ctx, sub: &str, case: &serde_json::Value) -> i32 {
+    ops::ALLOW_BEYOND_PRECISION.store(true, std::sync::atomic::Ordering::Relaxed);
     match sub {
         "normalize_exhaustive_small_scope" => ctx.replay_case::<ExhCase, _>(sub, case, exh_test),
         "encode_decode" => ctx.replay_case::<EncCase, _>(sub, case, enc_test),
